@@ -44,36 +44,34 @@ func (configuration *Configuration) Marshal() ([]byte, error) {
 }
 
 func (configuration *Configuration) Unmarshal(b []byte) error {
-	if len(b) > 0 {
+	// bounds checking
+	if len(b) <= 4 {
+		return errors.Errorf("Configuration: No sufficient bytes to decode next configuration")
+	}
+	configuration.ConfigurationType = b[0]
+
+	configurationAttributeData := b[4:]
+
+	for len(configurationAttributeData) > 0 {
 		// bounds checking
-		if len(b) <= 4 {
-			return errors.Errorf("Configuration: No sufficient bytes to decode next configuration")
+		if len(configurationAttributeData) < 4 {
+			return errors.Errorf("ConfigurationAttribute: No sufficient bytes to decode next configuration attribute")
 		}
-		configuration.ConfigurationType = b[0]
-
-		configurationAttributeData := b[4:]
-
-		for len(configurationAttributeData) > 0 {
-			// bounds checking
-			if len(configurationAttributeData) < 4 {
-				return errors.Errorf("ConfigurationAttribute: No sufficient bytes to decode next configuration attribute")
-			}
-			length := binary.BigEndian.Uint16(configurationAttributeData[2:4])
-			if len(configurationAttributeData) < 4+int(length) {
-				return errors.Errorf("ConfigurationAttribute: TLV attribute length error")
-			}
-
-			individualConfigurationAttribute := new(IndividualConfigurationAttribute)
-
-			individualConfigurationAttribute.Type = binary.BigEndian.Uint16(configurationAttributeData[0:2]) & 0x7fff
-			configurationAttributeData = configurationAttributeData[4:]
-			individualConfigurationAttribute.Value = append(
-				individualConfigurationAttribute.Value,
-				configurationAttributeData[:length]...)
-			configurationAttributeData = configurationAttributeData[length:]
-
-			configuration.ConfigurationAttribute = append(configuration.ConfigurationAttribute, individualConfigurationAttribute)
+		length := binary.BigEndian.Uint16(configurationAttributeData[2:4])
+		if len(configurationAttributeData) < 4+int(length) {
+			return errors.Errorf("ConfigurationAttribute: TLV attribute length error")
 		}
+
+		individualConfigurationAttribute := new(IndividualConfigurationAttribute)
+
+		individualConfigurationAttribute.Type = binary.BigEndian.Uint16(configurationAttributeData[0:2]) & 0x7fff
+		configurationAttributeData = configurationAttributeData[4:]
+		individualConfigurationAttribute.Value = append(
+			individualConfigurationAttribute.Value,
+			configurationAttributeData[:length]...)
+		configurationAttributeData = configurationAttributeData[length:]
+
+		configuration.ConfigurationAttribute = append(configuration.ConfigurationAttribute, individualConfigurationAttribute)
 	}
 
 	return nil
